@@ -138,6 +138,12 @@ func (e *Engine) VerifyFunc(b Bound) (u *Unit) {
 		e.resolveFrame(u, c, fn, params, free, entry)
 	}
 	fr.run(params, free, entry, "true")
+	for name := range c.Before {
+		if !u.beforeSeen[name] {
+			// the call the clause speaks about is gone: no obligation can be generated for it
+			u.UndecidedGoals = append(u.UndecidedGoals, fmt.Sprintf("binding: 'before %s requires ...' matches no call in the current body", name))
+		}
+	}
 	if c.HasMod {
 		e.frameObligations(u, fr, c, fn, params, free, entry)
 	}
@@ -334,7 +340,7 @@ func (e *Engine) frameObligations(u *Unit, fr *frame, c *Contract, fn *ssa.Funct
 				continue
 			}
 			if strings.HasPrefix(k, "cell.") || strings.HasPrefix(k, "iter.") || strings.HasPrefix(k, "Blk.") || strings.HasPrefix(k, "Held.local.") ||
-				strings.HasPrefix(k, "Calls.") || strings.HasPrefix(k, "Arg.") || strings.HasPrefix(k, "Res.") {
+				strings.HasPrefix(k, "Calls.") || strings.HasPrefix(k, "Arg.") || strings.HasPrefix(k, "Res.") || strings.HasPrefix(k, "CalledWith.") {
 				continue
 			}
 			written[k] = true
